@@ -377,6 +377,11 @@ def run(chk):
     # R6: words of a file / of the environment that belong to a sub-group are evaluated by the sub-group's own handler:
     # it must see the read mode of the handler that dispatches to it (its own mReadMode decides whether a value
     # counts against the cardinality, C03-R3) - otherwise such a value cannot be overridden from the command line
+    # a value from a file / the environment that is given again on the command line yields the command-line value:
+    # what is stored never depends on what the destination held before (a toggling flag would be cleared again)
+    chk.rule('R7', 'the stored value never depends on the previous content of the destination (shared with C01-R12)', 10)
+    from . import c01 as _c01
+    _c01.r12_store_independent_of_destination(chk, prog, rule='R7')
     chk.rule('R6', 'the read mode reaches the sub-group handler that evaluates words of a file / environment source', 1)
     pa = prog.one('celma::prog_args::Handler', 'processArg')
     pcfg = pa.cfg
